@@ -65,8 +65,15 @@ pub fn c19(log: &mut Log, seed: u64, tier: &str, fst_bin: &str, work: &str) {
         let dupfree = conf % 3 == 0;
         let n = *pick(&mut r, &[0usize, 1, 2, 3, 5, 8, 12, 20]);
         let nkeys = if dupfree { std::cmp::max(n, 1) } else { *pick(&mut r, &[1usize, 2, 3, 6]) };
-        let rows = gen_rows(&mut r, n, nkeys, dupfree, conf % 5 == 0 || (is_set && conf % 8 == 3));
-        let mode = if is_set { "set" } else { *pick(&mut r, &["sum", "max", "min"]) };
+        let mut rows = gen_rows(&mut r, n, nkeys, dupfree, conf % 5 == 0 || (is_set && conf % 8 == 3));
+        // one configuration (two in the thorough tier) with more than a thousand rows, run with one
+        // row per batch: more than a thousand batches in the first round, hundreds in the next
+        let many = conf == 12 || (thorough && conf == 24);
+        if many {
+            rows = (0..1030u64).map(|i| (format!("k{:04}", (i * 677) % 1030), i % 50)).collect();
+        }
+        // (a file listed twice next to itself only shows in sums: those configurations sum)
+        let mode = if is_set { "set" } else if !dupfree && conf % 4 == 1 { let _ = *pick(&mut r, &["sum", "max", "min"]); "sum" } else { *pick(&mut r, &["sum", "max", "min"]) };
         // input split over 1..3 files
         // (every third configuration cuts at random positions, so files may be empty - first,
         // in the middle or last)
@@ -101,6 +108,24 @@ pub fn c19(log: &mut Log, seed: u64, tier: &str, fst_bin: &str, work: &str) {
             std::fs::write(&p, s).unwrap();
             inputs.push(p);
         }
+        // every other configuration with repeated keys lists one of its input files again (next to
+        // itself, or at the end, or three times): the input is what the listed files contain, in order
+        let mut rows = rows;
+        if !dupfree && conf % 2 == 1 {
+            let i = r.gen_range(0, nfiles);
+            let mut listing: Vec<usize> = (0..nfiles).collect();
+            if conf % 4 == 1 {
+                listing.insert(i + 1, i);
+            } else {
+                listing.push(i);
+            }
+            if conf % 8 == 5 {
+                listing.insert(i + 1, i);
+            }
+            inputs = listing.iter().map(|&fi| work.join(format!("in{}.txt", fi))).collect();
+            let orig = rows.clone();
+            rows = listing.iter().flat_map(|&fi| orig[cuts[fi]..cuts[fi + 1]].to_vec()).collect();
+        }
         // the reference: a sorted build through the same CLI (only meaningful without repeated keys)
         let mut sorted_bytes: Option<Vec<u8>> = None;
         if dupfree {
@@ -134,8 +159,15 @@ pub fn c19(log: &mut Log, seed: u64, tier: &str, fst_bin: &str, work: &str) {
             }
         }
         for sd in 0..nseeds {
-            let bs = *pick(&mut r, &[1usize, 1, 2, 3, 4, 7, 100]);
-            let fd = *pick(&mut r, &[2usize, 2, 3, 4, 9]);
+            let mut bs = *pick(&mut r, &[1usize, 1, 2, 3, 4, 7, 100]);
+            let mut fd = *pick(&mut r, &[2usize, 2, 3, 4, 9]);
+            if many {
+                if sd > 0 {
+                    break;
+                }
+                bs = 1;
+                fd = 9;
+            }
             let threads = *pick(&mut r, &[1usize, 2, 3, 4, 8, 16]);
             let dseed = seed * 1000 + (conf * 100 + sd) as u64;
             let tmp = work.join("tmp");
@@ -169,7 +201,7 @@ pub fn c19(log: &mut Log, seed: u64, tier: &str, fst_bin: &str, work: &str) {
             let (res, timed_out) = output_within(&mut cmd, 30);
             let model_rows: Vec<Value> = rows.iter().map(|(k, v)| json!([jb(k.as_bytes()), ju(if is_set { 0 } else { *v })])).collect();
             log.ev(json!({"ev": "Run", "kind": if is_set { "set" } else { "map" }, "mode": mode, "bs": bs, "fd": fd, "threads": threads,
-                          "seed": jn(dseed as usize % (1 << 30)), "rows": model_rows, "dupfree": dupfree, "files": nfiles, "input": conf}));
+                          "seed": jn(dseed as usize % (1 << 30)), "rows": model_rows, "dupfree": dupfree, "files": inputs.len(), "input": conf}));
             // the hook's events, augmented with each file's content
             let tmpdir = std::fs::read_dir(&tmp).ok().and_then(|mut d| d.next()).and_then(|e| e.ok()).map(|e| e.path());
             let mut evs: Vec<Value> = std::fs::read_to_string(&tr).unwrap_or_default().lines().filter_map(|l| serde_json::from_str(l).ok()).collect();
